@@ -35,6 +35,12 @@ type C18Scenario struct {
 	// 2 s timeout) while the client runs with one connection slot per CPU: the
 	// servers beyond the slots wait for seconds before their turn comes
 	Slow []string `json:"slow,omitempty"`
+	// CRLF: the server file has DOS line ends
+	CRLF bool `json:"crlf,omitempty"`
+	// HangUp: addresses where something accepts the TCP connection and closes it
+	// at once (a server at its connection limit or shutting down, a proxy
+	// without a backend)
+	HangUp []string `json:"hang_up,omitempty"`
 }
 
 func c18Gen(r *Rand, tier string, i int) Scenario {
@@ -64,7 +70,18 @@ func c18Gen(r *Rand, tier string, i int) Scenario {
 	sc.FinalNL = r.Bool(0.7)
 	sc.EpochS = PickOf(r, 0, 1, r.Intn(1000000), r.Intn(1000000))
 	sc.Tail = n <= 40 && r.Bool(0.15)
+	sc.CRLF = sc.FromFile && r.Bool(0.2)
+	if !sc.Tail && n <= 40 && r.Bool(0.2) {
+		seenHost := map[string]bool{}
+		for _, e := range sc.Entries {
+			if a := entryAddr(strings.ToLower(e)); !seenHost[a] && strings.HasSuffix(a, ":2222") && e == strings.ToLower(e) && r.Bool(0.5) {
+				seenHost[a] = true
+				sc.HangUp = append(sc.HangUp, a)
+			}
+		}
+	}
 	if !sc.Tail && (n == 40 || n == 200) && r.Bool(0.3) {
+		sc.HangUp = nil
 		// more distinct servers than connection slots, most of them not answering
 		sc.Entries = nil
 		for k := 0; k < n; k++ {
@@ -104,14 +121,40 @@ func c18Run(t *testing.T, s Scenario, src verifsim.DecisionSource, keep bool) *R
 		a.SSHPrivateKeyFilePath = keyPath
 		if sc.FromFile {
 			p := filepath.Join(w.Dir, "servers.txt")
-			content := strings.Join(sc.Entries, "\n")
+			nl := "\n"
+			if sc.CRLF {
+				nl = "\r\n"
+			}
+			content := strings.Join(sc.Entries, nl)
 			if sc.FinalNL {
-				content += "\n"
+				content += nl
 			}
 			must(os.WriteFile(p, []byte(content), 0644))
 			a.ServersStr = p
 		} else {
 			a.ServersStr = strings.Join(sc.Entries, ",")
+		}
+		for hi, addr := range sc.HangUp {
+			host := addr[:strings.LastIndex(addr, ":")]
+			hn := w.Sim.NewNode(fmt.Sprintf("hangup%d", hi), "server", host)
+			w.Net.AddHost(host, net.IPv4(10, 0, 7, byte(1+hi%250)))
+			ready := make(chan struct{})
+			w.Sim.GoOn(hn, "harness/hangup", func() {
+				l, err := verifsimnet.Listen("tcp", ":2222")
+				close(ready)
+				if err != nil {
+					return
+				}
+				for {
+					c, err := l.Accept()
+					if err != nil {
+						return
+					}
+					c.Close()
+				}
+			})
+			verifsim.Yield("harness/waitlisten")
+			<-ready
 		}
 		if len(sc.Slow) > 0 {
 			a.ConnectionsPerCPU = 1
